@@ -51,6 +51,14 @@ INFO = {
  "C14c": ("Sm9SignMasterKey::master_key_generate draws ks with fn_random_u256, which compares limb arrays lexicographically (little-endian)", "about 28% of generated master secrets are >= N; the low limb is bounded"),
  "C17c": ("Point::is_on_curve takes the affine fast path when z == SM9_ONE (plain one) instead of the Montgomery one", "a received point given with z limbs [1,0,0,0] (= R^-1): z is ignored and an off-curve point is accepted"),
  "C18c": ("EEA trailing-bit mask applied when `ilen % 8 != 0` instead of `ilen % 32 != 0`", "LENGTH % 32 in {8, 16, 24}: the bits beyond LENGTH in the last word are not cleared"),
+ "C03d": ("fn_reduce subtracts with swapped operands (n - a instead of a - n)", "a digest e = SM3(ZA||M) >= n (about one message in 2^32): signatures do not satisfy the standard's equation, conforming ones are rejected"),
+ "C08d": ("generate_keystream written as a do-while loop: the body runs once even for n = 0", "a zero-length keystream request: returns one word and shifts every later request by a word"),
+ "C11e": ("mont_mul mod p compares against p - 1 in its final conditional subtraction", "a product whose unreduced result is exactly p - 1 (e.g. z = p - 1 in Montgomery limbs): reduced to 2^256 - 1"),
+ "C13e": ("Fp2::fp_inv, branch c0 = 0: doubling and inversion swapped (-(2 * a1^-1) instead of -(2 a1)^-1)", "an Fp2 element that is a pure multiple of u: the inverse is 4 times too large"),
+ "C15d": ("exchange_2 tests `!v_point.is_valid()` instead of `v_point.is_zero()` (is_valid accepts infinity)", "P_A = -[x1~]R_A: the shared point is infinity and the responder still derives a key"),
+ "C16d": ("mod_n_add carry branch corrects with u256_sub instead of u256_add", "H1 + k >= 2^256 (master scalar above 2^256 - N): extracted keys are wrong"),
+ "C19d": ("Sm2PrivateKey::to_hex_string formats through BigUint::to_str_radix(16)", "d < 2^252: fewer than 64 hex digits, from_hex_string(to_hex_string()) fails"),
+ "C20d": ("block_add_one rewritten as u128::from_be_bytes(ctr) + 1 (plain `+`)", "CTR with an IV of 2^128 - k and at least 16k bytes of data: overflow panic"),
  "C07b": ("CBC decrypt bounds the PKCS#7 pad byte by the ciphertext length instead of the block size", "a ciphertext of two or more blocks whose last decrypted byte is 17..min(255, length): accepted and truncated instead of an error"),
  "C08b": ("ZUC S-box S0[0x17] changed from 0xa5 to 0xa6", "a byte 0x17 entering S0 inside F (the EEA/EIA vectors in the crate never do; the three published keystream vectors do)"),
  "C10b": ("SM9 decrypt compares only min(|C2|, 32) bytes of C3", "a message shorter than 32 bytes and a C3 modified at a byte index >= |M|"),
@@ -65,7 +73,7 @@ for s in sorted(os.listdir(os.path.join(V, "seeded"))):
         continue
     mp = os.path.join(d, "meta.json")
     meta = json.load(open(mp)) if os.path.exists(mp) else {}
-    prop = s.rstrip("bcd")
+    prop = s.rstrip("bcde")
     if s in INFO:
         meta.update({"property": prop, "change": INFO[s][0], "needs_to_manifest": INFO[s][1]})
     meta.setdefault("written_by", "independent sub-agent given only the property text and a scratch worktree")
